@@ -33,18 +33,24 @@ TRUSTED = [
 def run(ctx):
     C.coq_lib()
     ctx.trusted = TRUSTED
-    ctx.coq_file(os.path.join(C.COQ, "props", "C11.v"))
-    bad = C.hygiene()
-    ctx.obligation("hygiene: no Admitted/Axiom/Parameter/... in coq/", not bad, "; ".join(bad))
-    diffs = C.pyx_vs_c()
-    ctx.obligation("compiled code corresponds to the .pyx source (DESIGN 4.5)", not diffs,
-                   "source and compiled code differ; the property is shown for the compiled code only: %r" % (diffs[:5],))
-    C.shadow()
-    ctx.rule = K.RULE
-    cases = K.generate(ctx.rng, ctx.quick())
-    K.check_cases(ctx, "C11", cases, os.path.join(ctx.scratch, "real"), sanitize=False)
-    ctx.extra["lattice"] = K.lattice_summary(cases)
-    K.extraction_agreement(ctx, cases, os.path.join(ctx.scratch, "vm"), n=24 if ctx.quick() else 100)
+    # coqc of the theorem file (~30 s: 30 Print Assumptions) runs while the real code is exercised
+    import threading
+    coq_thread = threading.Thread(target=ctx.coq_file, args=(os.path.join(C.COQ, "props", "C11.v"),))
+    coq_thread.start()
+    try:
+        bad = C.hygiene()
+        ctx.obligation("hygiene: no Admitted/Axiom/Parameter/... in coq/", not bad, "; ".join(bad))
+        diffs = C.pyx_vs_c()
+        ctx.obligation("compiled code corresponds to the .pyx source (DESIGN 4.5)", not diffs,
+                       "source and compiled code differ; the property is shown for the compiled code only: %r" % (diffs[:5],))
+        C.shadow()
+        ctx.rule = K.RULE
+        cases = K.generate(ctx.rng, ctx.quick())
+        K.check_cases(ctx, "C11", cases, os.path.join(ctx.scratch, "real"), sanitize=False)
+        ctx.extra["lattice"] = K.lattice_summary(cases)
+        K.extraction_agreement(ctx, cases, os.path.join(ctx.scratch, "vm"), n=24 if ctx.quick() else 100)
+    finally:
+        coq_thread.join()
 
 
 def replay(rep):
